@@ -35,6 +35,9 @@ type invItem struct {
 	Name  string   `json:"name"`
 	Sig   string   `json:"sig"` // signature (funcs, methods), type (fields), kind of underlying (types)
 	Fp    []string `json:"fp,omitempty"`
+	// NClosures: function literals in the declaration (funcs, methods): a closure that became a named function shows
+	// as a drop of this count plus a new function called only from here (inline.go turns it back)
+	NClosures int `json:"closures,omitempty"`
 
 	obj types.Object
 }
@@ -96,7 +99,7 @@ func inventoryOf(pkgs []*packages.Package) []*invItem {
 			switch o := sc.Lookup(n).(type) {
 			case *types.Func:
 				sig := o.Type().(*types.Signature)
-				out = append(out, &invItem{Kind: "func", Pkg: sp, Name: n, Sig: types.TypeString(sig, shortQualifier), Fp: bodyFingerprint(bodies[o]), obj: o})
+				out = append(out, &invItem{Kind: "func", Pkg: sp, Name: n, Sig: types.TypeString(sig, shortQualifier), Fp: bodyFingerprint(bodies[o]), NClosures: countFuncLits(bodies[o]), obj: o})
 			case *types.TypeName:
 				if o.IsAlias() {
 					continue
@@ -132,7 +135,7 @@ func inventoryOf(pkgs []*packages.Package) []*invItem {
 					m := named.Method(i)
 					members = append(members, m.Name()+"()")
 					sig := m.Type().(*types.Signature)
-					out = append(out, &invItem{Kind: "method", Pkg: sp, Owner: n, Name: m.Name(), Sig: types.TypeString(sig, shortQualifier), Fp: bodyFingerprint(bodies[m]), obj: m})
+					out = append(out, &invItem{Kind: "method", Pkg: sp, Owner: n, Name: m.Name(), Sig: types.TypeString(sig, shortQualifier), Fp: bodyFingerprint(bodies[m]), NClosures: countFuncLits(bodies[m]), obj: m})
 				}
 				sort.Strings(members)
 				kind := fmt.Sprintf("%T", named.Underlying())
@@ -387,4 +390,18 @@ func frozenInventory() []*invItem {
 		broken("inventory.json: %v", err)
 	}
 	return items
+}
+
+func countFuncLits(n ast.Node) int {
+	if n == nil {
+		return 0
+	}
+	k := 0
+	ast.Inspect(n, func(m ast.Node) bool {
+		if _, ok := m.(*ast.FuncLit); ok {
+			k++
+		}
+		return true
+	})
+	return k
 }
